@@ -34,16 +34,20 @@ def showStats (r : Result) : String :=
   "200 " ++ jsonPairs r.total ++ s!" {usersJSONName}=[" ++
     ";".intercalate (r.users.map (fun e => s!"{usernameJSONName}={e.1},{jsonPairs e.2}")) ++ "]"
 
+abbrev Table := List (Target × List (Field × Nat))
+
+@[noinline] def ofTable (tab : Table) : Store := fun t f =>
+  match tab.find? (fun e => e.1 == t) with
+  | some e => match e.2.find? (fun p => p.1 == f) with
+    | some p => p.2
+    | none => 0
+  | none => 0
+
+@[noinline] def tabulate (sh : Shared) : Table :=
+  (Target.anon :: sh.names.map Target.user).map (fun t => (t, Field.all.map (fun f => (f, sh.ctr t f))))
+
 /-- rebuild the store as a table look-up (keeps the closure chain short in long scripts) -/
-def compact (sh : Shared) : Shared :=
-  let tab : List (Target × List (Field × Nat)) :=
-    (Target.anon :: sh.names.map Target.user).map (fun t => (t, Field.all.map (fun f => (f, sh.ctr t f))))
-  { sh with ctr := fun t f =>
-      match tab.find? (fun e => e.1 == t) with
-      | some e => match e.2.find? (fun p => p.1 == f) with
-        | some p => p.2
-        | none => 0
-      | none => 0 }
+def compact (sh : Shared) : Shared := { sh with ctr := ofTable (tabulate sh) }
 
 def uname (s : String) : String := if s == "-" then "" else s
 
